@@ -15,6 +15,11 @@ The driver maps every view program onto tasks of the abstract discipline model `
   poll: `Suspend::to_html_async_with_buf`, known finding F-C20-1): that one sees whatever the last
   `start`/stream end left in OWNER.  When all gates of r are fired its stream ends: cleanups (arena
   read, inside `Sandboxed`), then `Owner::unset`.
+* `abort r b` — the response body of r is dropped unpolled while b's arena is current: r's root dies (OWNER dangling =
+  none); r's response is then only judged by the harness oracle (`r<k>:aborted`); an already dispatched action future of r
+  still runs (unwrapped); `on_cleanup`s of r under a foreign arena = F-C20-4.
+* leaf kinds: resources of every family, `spawn_local_scoped`, isomorphic effects, arena reads in child owners = WRAPPED tasks;
+  `Action::dispatch` future = UNWRAPPED, sandboxed task (`reactive_graph::spawn`), F-C20-3.
 * `poll i` — a spawned task of some request; every one of them is wrapped, so by
   `C20_wrapped_isolated` the observation does not depend on when it is polled: no model action.
 
@@ -30,6 +35,11 @@ inductive P where
   | U (c : P)
   | W (k : Nat) (c : P)
   | R (g a b : Nat)
+  | O (v g a b : Nat)
+  | T (g a : Nat)
+  | D (g a : Nat)
+  | I (a : Nat)
+  | A (g a : Nat)
   | F (n id : Nat)
   | Q (cs : List P)
 deriving Inhabited
@@ -77,6 +87,27 @@ partial def parseP (depth : Nat) (cs : List Char) : Option (P × List Char) :=
     let (a, r) ← takeNum r; let r ← eat '.' r
     let (b, r) ← takeNum r
     pure (.R g a b, r)
+  | 'O' :: r => do
+    let (v, r) ← takeNum r
+    if v > 7 then none else
+    let r ← eat '.' r
+    let (g, r) ← takeNum r; let r ← eat '.' r
+    let (a, r) ← takeNum r; let r ← eat '.' r
+    let (b, r) ← takeNum r
+    pure (.O v g a b, r)
+  | 'T' :: r => do
+    let (g, r) ← takeNum r; let r ← eat '.' r
+    let (a, r) ← takeNum r
+    pure (.T g a, r)
+  | 'D' :: r => do
+    let (g, r) ← takeNum r; let r ← eat '.' r
+    let (a, r) ← takeNum r
+    pure (.D g a, r)
+  | 'A' :: r => do
+    let (g, r) ← takeNum r; let r ← eat '.' r
+    let (a, r) ← takeNum r
+    pure (.A g a, r)
+  | 'I' :: r => do let (n, r) ← takeNum r; pure (.I n, r)
   | 'F' :: r => do
     let (n, r) ← takeNum r; let r ← eat '.' r
     let (a, r) ← takeNum r
@@ -105,10 +136,24 @@ def parseProg (s : String) : Option P :=
 partial def gatesOf : P → List Nat
   | .S g _ _ c => g :: gatesOf c
   | .R g _ _ => [g]
+  | .O _ g _ _ => [g]
+  | .T g _ => [g]
+  | .D g _ => [g]
+  | .A g _ => [g]
   | .V _ c => gatesOf c
   | .U c => gatesOf c
   | .W _ c => gatesOf c
   | .Q cs => cs.flatMap gatesOf
+  | _ => []
+
+/-- gates nothing on the server waits for (`LocalResource`'s fetcher is never run there) -/
+partial def idleGates : P → List Nat
+  | .O 7 g _ _ => [g]
+  | .S _ _ _ c => idleGates c
+  | .V _ c => idleGates c
+  | .U c => idleGates c
+  | .W _ c => idleGates c
+  | .Q cs => cs.flatMap idleGates
   | _ => []
 
 partial def hasSusp : P → Bool
@@ -119,10 +164,16 @@ partial def hasSusp : P → Bool
   | .Q cs => cs.any hasSusp
   | _ => false
 
-/-- a Suspense or an `on_cleanup` somewhere below -/
+/-- a Suspense, an `on_cleanup` or background work (whose owner chain passes through here) somewhere below -/
 partial def hasU : P → Bool
   | .U _ => true
   | .C _ => true
+  | .R .. => true
+  | .O .. => true
+  | .T .. => true
+  | .D .. => true
+  | .I _ => true
+  | .A .. => true
   | .V _ c => hasU c
   | .W _ c => hasU c
   | .S _ _ _ c => hasU c
@@ -132,7 +183,7 @@ partial def hasU : P → Bool
 /-! ### program → leaf records -/
 
 inductive Kind where
-  | tag | exposed | cleanup | site
+  | tag | exposed | cleanup | site | action | aread
 deriving BEq, Repr
 
 structure Rec where
@@ -226,6 +277,27 @@ partial def compile (base r : Nat) (io : Bool) (ctx : Ctx) (acc : CAcc) : P → 
   | .R g a b =>
     let ctx := { ctx with need := ctx.need ++ [g] }
     { acc with seen := acc.seen ++ [g], recs := acc.recs ++ [mkRec a .tag ctx, mkRec b .tag ctx] }
+  | .O v g a b =>
+    -- OnceResource / ArcOnceResource / blocking / ArcResource / AsyncDerived: `ScopedFuture::new` at construction;
+    -- LocalResource (7): nothing runs on the server, Suspense falls back
+    if v == 7 then acc else
+    let ctx := { ctx with need := ctx.need ++ [g] }
+    { acc with seen := acc.seen ++ [g], recs := acc.recs ++ [mkRec a .tag ctx, mkRec b .tag ctx] }
+  | .T g a =>
+    -- `spawn_local_scoped`: ScopedFuture + Sandboxed
+    let ctx := { ctx with need := ctx.need ++ [g] }
+    { acc with seen := acc.seen ++ [g], recs := acc.recs ++ [mkRec a .tag ctx] }
+  | .D g a =>
+    -- `ArcAction::dispatch`: `reactive_graph::spawn` = Sandboxed only, NOT ScopedFuture (F-C20-3)
+    let ctx := { ctx with need := ctx.need ++ [g] }
+    { acc with seen := acc.seen ++ [g], recs := acc.recs ++ [mkRec a .action ctx] }
+  | .I a =>
+    -- `Effect::new_isomorphic`: the task runs the body under `owner.with_cleanup`
+    { acc with recs := acc.recs ++ [mkRec a .tag ctx] }
+  | .A g a =>
+    -- arena items of a child owner read inside the Suspend's ScopedFuture
+    let ctx := { ctx with need := ctx.need ++ [g] }
+    { acc with seen := acc.seen ++ [g], recs := acc.recs ++ [mkRec a .aread ctx] }
   | .Q cs => cs.foldl (compile base r io ctx) acc
 
 /-! ### driver state -/
@@ -233,6 +305,8 @@ partial def compile (base r : Nat) (io : Bool) (ctx : Ctx) (acc : CAcc) : P → 
 structure RQ where
   io : Bool
   gates : List Nat
+  /-- gates the response waits for -/
+  endGates : List Nat
   recs : List Rec
   nodes : List Node
   resolved : List Nat := []
@@ -241,6 +315,7 @@ structure RQ where
   started : Bool := false
   dropped : Bool := false
   ended : Bool := false
+  aborted : Bool := false
   fired : List Nat := []
   /-- late Provider/Suspense owners parked in another request's cleanups: (site, that request's root) -/
   parked : List (Nat × OwnerId) := []
@@ -251,6 +326,8 @@ structure DS where
   st : State := {}
   ended : Bool := false
   exposedBad : Bool := false
+  actionBad : Bool := false
+  abortCleanupBad : Bool := false
   siteBad : Bool := false
 
 def DS.exec (d : DS) (t : Task) : DS :=
@@ -307,6 +384,16 @@ def runEnabled (d : DS) (r : Nat) (q : RQ) (atStart : Bool := false) : DS × RQ 
         -- `OwnedView::to_html_async_with_buf`: `Owner::on_cleanup(move || drop(self.owner))` on the AMBIENT owner
         let foreign := d.st.amb.owner != some q.root
         ({ d with siteBad := d.siteBad || (foreign && rec.hasSusp) }, out ++ [{ rec with done := true }])
+      | .aread =>
+        (d.exec { req := r, captured := cap, wrapped := true, sandboxed := true, steps := [.simple (.readAmb rec.id)] },
+          out ++ [{ rec with done := true }])
+      | .action =>
+        -- the action's future: `reactive_graph::spawn` (Sandboxed, no ScopedFuture): reads the ambient owner
+        let d := d.exec { req := r, captured := cap, wrapped := false, sandboxed := true, steps := [.simple (.readCtx rec.id)] }
+        let bad := match d.st.mem.log.getLast? with
+          | some ob => ob.owner != some q.root
+          | none => false
+        ({ d with actionBad := d.actionBad || bad }, out ++ [{ rec with done := true }])
       | .cleanup => (d, out ++ [rec])
   (d, { q with recs := recs })
 
@@ -340,12 +427,38 @@ def endStream (d : DS) (r : Nat) (q : RQ) : DS × RQ :=
 def progress (d : DS) (r : Nat) (q : RQ) : DS × RQ :=
   if q.ended then (d, q) else
   let (d, q) := runEnabled d r q
-  if q.gates.all fun g => q.fired.contains g then endStream d r q else (d, q)
+  if q.endGates.all fun g => q.fired.contains g then endStream d r q else (d, q)
 
 def finish (d : DS) (r : Nat) (q : RQ) : DS :=
   let q := { q with fired := q.gates }
   let (d, q) := progress d r q
   setReq d r { q with dropped := true }
+
+/-- client abort: the response body is dropped unpolled (no `Owner::unset`, but the root dies, so a dangling
+OWNER reads as none); the request's pending background work then completes.  Its truncated response is
+judged by the harness oracle only; what the model adds is whether an unscoped action future of the dead
+request then runs under ANOTHER live request's owner. -/
+def abort (d : DS) (r b : Nat) (q : RQ) : DS :=
+  if q.ended then setReq d r { q with dropped := true, aborted := true } else
+  -- the root dies outside any `Sandboxed` poll: its `on_cleanup` closures run under the thread's CURRENT arena,
+  -- request b's; an arena handle read there resolves in b's arena (F-C20-4; per-request arenas only, which is
+  -- why such aborts are not generated: the global-arena configuration has nothing to confuse)
+  let d := { d with abortCleanupBad := d.abortCleanupBad ||
+    (b != r && q.recs.any fun (rec : Rec) => rec.kind == Kind.cleanup && !rec.done) }
+  -- a late Provider/Suspense/route owner of r parked in ANOTHER request's cleanups (F-C20-2) outlives r
+  let d := { d with siteBad := d.siteBad || !q.parked.isEmpty }
+  let d := d.exec { req := r, captured := {}, wrapped := false, sandboxed := false, steps := [.unset q.root] }
+  let d := q.recs.foldl (init := d) fun d rec =>
+    -- only an action that was already dispatched (the view containing it has been built) has a future to run
+    if rec.kind == .action && !rec.done && (rec.chain.all fun g => q.resolved.contains g) then
+      let d := d.exec { req := r, captured := { arena := some r }, wrapped := false, sandboxed := true,
+                        steps := [.simple (.readCtx rec.id)] }
+      let bad := match d.st.mem.log.getLast? with
+        | some ob => ob.owner.isSome
+        | none => false
+      { d with actionBad := d.actionBad || bad }
+    else d
+  setReq d r { q with dropped := true, ended := true, aborted := true, fired := q.gates }
 
 def insertSorted (s : String) : List String → List String
   | [] => [s]
@@ -359,11 +472,17 @@ def insertLeaf (leaf : Nat) (seen : String) : List (Nat × List String) → List
     else (l, ts) :: insertLeaf leaf seen rest
 
 def showObs (d : DS) (r : Nat) (q : RQ) : String :=
+  if q.aborted then s!"r{r}:aborted" else
+  let isARead (leaf : Nat) := q.recs.any fun rec => rec.kind == .aread && rec.id == leaf
   let isCleanup (leaf : Nat) := q.recs.any fun rec => rec.kind == .cleanup && rec.id == leaf
   let m := d.st.mem.log.foldl (init := ([] : List (Nat × List String))) fun m ob =>
     if ob.req != r then m else
     let seen :=
-      if isCleanup ob.leaf then
+      if isARead ob.leaf then
+        match ob.arena with
+        | some x => s!"v{x}/{x}"
+        | none => "v-/-"
+      else if isCleanup ob.leaf then
         match ob.arena with
         | some x => s!"a{x}"
         | none => "a-"
@@ -391,7 +510,7 @@ def step (d : DS) (line : String) : DS × String :=
       let root := d.world.owners.length
       let acc := compile (root + 1) r (mode == "io") { scope := root } {} p
       let w : World := { d.world with owners := d.world.owners ++ [{ req := r, parent := none, arena := r }] ++ acc.owners }
-      let q : RQ := { io := mode == "io", gates := gatesOf p, recs := acc.recs, nodes := acc.nodes, root := root,
+      let q : RQ := { io := mode == "io", gates := gatesOf p, endGates := (gatesOf p).filter (fun g => !(idleGates p).contains g), recs := acc.recs, nodes := acc.nodes, root := root,
                       provides := (root, r * 1000) :: acc.provides }
       ({ d with world := w, reqs := d.reqs ++ [q] }, "ok")
     | _, _ => (d, "bad-op")
@@ -426,6 +545,11 @@ def step (d : DS) (line : String) : DS × String :=
     match idx? d rs with
     | some (r, q) => if !q.started || q.dropped then (d, "bad-op") else (finish d r q, "ok")
     | none => (d, "bad-op")
+  | ["abort", rs, bs] =>
+    match idx? d rs, idx? d bs with
+    | some (r, q), some (_, qb) =>
+      if !q.started || q.dropped || !qb.started || qb.dropped then (d, "bad-op") else (abort d r (bs.toNat?.getD r) q, "ok")
+    | _, _ => (d, "bad-op")
   | ["end"] =>
     let d := (List.range d.reqs.length).foldl (init := d) fun d r =>
       match d.reqs[r]? with
@@ -436,6 +560,8 @@ def step (d : DS) (line : String) : DS × String :=
       | some q => if q.started then some (showObs d r q) else none
       | none => none
     let v := if d.exposedBad then "fail unwrapped-stream-render"
+             else if d.actionBad then "fail action-future-unscoped"
+             else if d.abortCleanupBad then "fail abort-cleanup-foreign-arena"
              else if d.siteBad then "fail late-owned-view" else "ok"
     ({ d with ended := true }, " ".intercalate obs ++ " ## " ++ v)
   | _ => (d, "bad-op")
